@@ -230,10 +230,11 @@ def _perf_only(ck, P, cfg):
                 ck.holds("C09.3", inst, c.where, "used only for statistics, logging or the designated performance state", cfg)
     ck.expect("C09.3", n_src, 12, "uses of timers / statistics readings")
     # who reads the performance state
+    owners = Q.owner_closure(P, PERF_STATE_READERS)
     for (rec, fld) in sorted(PERF_STATE_FIELDS):
         for f, node, kind in Q.field_accesses(P, rec, fld):
-            if f.name in PERF_STATE_READERS or f.file.endswith("mm/auto_ckpt.c"):
-                if f.name in ("process_msg", "handle_anti_msg", "handle_straggler_msg"):
+            if f.name in owners or f.file.endswith("mm/auto_ckpt.c"):
+                if owners.get(f.name) in ("process_msg", "handle_anti_msg", "handle_straggler_msg"):
                     # only through the auto_ckpt_* macros
                     if not any(m.startswith("auto_ckpt_") for m in node.macros):
                         ck.violated("C09.3", "perf-state:%s.%s@%s" % (rec, fld, f.name), node.where, "%s reads the auto-checkpoint state directly instead of through its macros" % f.name, cfg)
@@ -246,8 +247,11 @@ def _perf_only(ck, P, cfg):
             if f.name not in readers:
                 ck.violated("C09.3", "perf-state:%s@%s" % (gname, f.name), node.where, "%s touches `%s` (wall-clock derived)" % (f.name, gname), cfg)
     # the checkpoint decision steers only checkpoint_take
-    pm = P.fn("process_msg")
+    holders = [g_ for g_ in P.all_functions() if any(s.k == "StmtExpr" and s.macros and s.macros[0] == "auto_ckpt_is_needed" for s in g_.walk())]
+    pm = holders[0] if len(holders) == 1 else P.fn("process_msg")
     nd = [s for s in pm.walk() if s.k == "StmtExpr" and s.macros and s.macros[0] == "auto_ckpt_is_needed"]
+    if len(nd) != 1:
+        ck.inconclusive("C09.3", "ckpt-decision@process_msg", pm.where, "checkpoint decision site not recognised", cfg)
     if len(nd) == 1:
         g = pm.cfg
         deps = [c for c in pm.calls() if c.callee and any(core is nd[0] or nd[0].is_inside(core) or core.is_inside(nd[0]) for core, B in Q.control_dependences(pm, c))]
